@@ -1,9 +1,6 @@
 #!/bin/bash
-# development helper: every registered check, one line each
+# runs every registered check (quick tier by default) against /repo, 4 at a time; prints one verdict line per check
 cd "$(dirname "$0")/.."
-for p in C01 C02 C03 C04 C05 C06 C07 C08 C09 C10 C11 C12 C13 C14 C15 C16 C17 C18 C19 C20; do
-  if [ ! -f coq/props/$p.v ]; then echo "$p: (no props file in this clone)"; continue; fi
-  out=$(timeout 3000 ./check $p "$@" 2>&1); rc=$?
-  echo "$p: exit=$rc $(echo "$out" | grep -E '^(OK|VIOLATION|KNOWN-FINDING|ERROR)' | tr '\n' ' ' | cut -c1-300)"
-  if [ $rc -ne 0 ]; then echo "$out" | tail -15 | sed 's/^/    /'; fi
-done
+TIER=${1:-quick}
+python3 tools/gen_tables.py >/dev/null
+ls tools/props/c*.py | sed 's#.*/c\([0-9]*\)\.py#C\1#' | xargs -P 4 -I{} sh -c "./check {} --tier $TIER 2>&1 | grep -E '^(VIOLATION|OK|FAIL|KNOWN|CHECK-ERROR)' | sed 's/^/{}: /'"
